@@ -243,12 +243,19 @@ def run_tx_case(ctx, T, lens, stagger, script, rng=None, kind="enum", objects=No
             qi += 1
         nsend = fake.calls.get("send", 0)
         mark = len(fake.log)
-        if T.serial and rng is not None and rng.random() < 0.3:
-            obj.serviceTxOnce()
-            log.append("serviceTxOnce")
-        else:
-            obj.serviceTxes()
-            log.append("serviceTxes")
+        try:
+            if T.serial and rng is not None and rng.random() < 0.3:
+                obj.serviceTxOnce()
+                log.append("serviceTxOnce")
+            else:
+                obj.serviceTxes()
+                log.append("serviceTxes")
+        except Exception as ex:      # noqa  (the scripts hold send results only: nothing here is an error of the connection)
+            from vf.core import exc_key as _ek
+            ctx.fail("%s/tx/raises/%s" % (T.name, _ek(ex)), "%s: servicing the transmit queue raised %r on a %s result" % (
+                T.name, ex, names(script)[min(len(script) - 1, max(0, fake.calls.get("send", 1) - 1))] if script else "?"),
+                wit(fake.accepted, b"".join(bytes(d) for d in T.txq(obj))))
+            return
         calls += 1
         ctx.event(fake.calls.get("send", 0) - nsend)
         for (op, d, r) in fake.log[mark:]:
@@ -361,6 +368,13 @@ def random_case(ctx, T, rng):
             break
         lens.append(n)
         total += n
+    r0 = ctx.subrng("c24empty", T.name, tuple(lens))
+    if r0.random() < 0.3:
+        # a message without bytes (a keep-alive nobody filled in) alone, first, between or after the others: it leaves the
+        # queue like any other and holds nothing up
+        for _ in range(r0.choice([1, 1, 2])):
+            lens.insert(r0.randint(0, len(lens)), 0)
+        ctx.hit("tx_cases_with_an_empty_message_%s" % T.name)
     script = []
     for _ in range(rng.randint(8, 60)):
         r = rng.random()
@@ -464,6 +478,7 @@ def run(ctx):
         ctx.floor("rx_chunks_%s" % name, ctx.pick(200, 3000))
         ctx.floor("random_cases_%s" % name, ctx.pick(15, 500))
         ctx.floor("tx_cases_with_mutable_or_repeated_message_objects_%s" % name, ctx.pick(15, 500))
+        ctx.floor("tx_cases_with_an_empty_message_%s" % name, ctx.pick(5, 150))
         if name != "Driver":
             ctx.floor("rx_drains_%s" % name, ctx.pick(30, 800))
         if name != "Driver":
